@@ -880,7 +880,7 @@ func c04Run(r *core.Run) {
 	const c04NilBits = 1<<1 | 1<<4 | 1<<5
 	r.Parallel(func(w, nw int, l *core.Local) {
 		for ci := w; ci < len(cfgs); ci += nw {
-			if ci%512 == 0 && r.Expired() {
+			if (ci/nw)%32 == 0 && r.Expired() {
 				return
 			}
 			for ai, a := range apis {
@@ -926,7 +926,7 @@ func c04Run(r *core.Run) {
 	r.Bounds["invoke_configs"] = len(icfgs)
 	r.Parallel(func(w, nw int, l *core.Local) {
 		for ci := w; ci < len(icfgs); ci += nw {
-			if ci%64 == 0 && r.Expired() {
+			if (ci/nw)%4 == 0 && r.Expired() {
 				return
 			}
 			for _, nilv := range []bool{false, true} {
